@@ -31,7 +31,7 @@ def plan(tier, seed):
     return [{"name": "s%d" % i, "i": i, "c": 10 if q else 1200, "l1": 90 if q else 8000} for i in range(NSHARD)]
 
 
-LABELS = ["A", "B", "popC", "D_4", "e", "YRI", "CEU", "x.y", "P-1", "pop A", "pop B", "a b c", "Z ", "K=2", "K=3", "a=b=c"]
+LABELS = ["A", "B", "popC", "D_4", "e", "YRI", "CEU", "x.y", "P-1", "pop A", "pop B", "a b c", "Z ", "K=2", "K=3", "a=b=c", "[unnamed]", "NA", "null", "None", "unnamed", "0", "population"]
 
 
 def gen_map(rng, samples):
@@ -188,6 +188,16 @@ def check_C(S, p):
             if not rejected and (t7.rc != base.rc or t7.out != base.out):
                 S.viol("C09:samples-file-empty-line", "[%s] samples file with an empty line before entry %d of %d is neither rejected nor read completely: rc %s stdout %r stderr %r, all entries give %r" % (
                     tag, pos, len(body), t7.rc, t7.out[:120], t7.err[:200], base.out[:120]), dict(wit, samples_file="\n".join(lines7), replay=R.same(base, t7) if t7.rc == 0 else None))
+        # twin 8: a line that is not valid UTF-8 (a Latin-1 name) somewhere in the samples file: it names no sample of the input and
+        # cannot even be read as text - the run must fail wherever the line stands, never go on with the entries before it
+        for pos in sorted({0, len(body), rng.randint(1, max(1, len(body)))}):
+            raw8 = "".join(l_ + "\n" for l_ in body[:pos]).encode() + b"\xe9tienne\tA\n" + "".join(l_ + "\n" for l_ in body[pos:]).encode()
+            t8 = cli.sfs(["create", "-S", E.tmpfile(raw8, ".samples")], stdin=data)
+            S.count("C_twin_runs")
+            S.count("C_samples_file_invalid_utf8")
+            if t8.rc == 0 or t8.out or not t8.err.strip() or t8.panicked:
+                S.viol("C09:samples-file-invalid-utf8", "[%s] samples file with a non-UTF-8 line before entry %d of %d: rc %s stdout %r stderr %r" % (
+                    tag, pos, len(body), t8.rc, t8.out[:120], t8.err[:200]), dict(wit, samples_file_b64=E.b64(raw8)))
         sizes = G.pop_sizes([(s, q) for s, q in dict(smap).items()])
         S.case(key=digest([E.codes(cs), E.map_json(smap)]), nontrivial=len(exp.shape) >= 2 and (len(set(exp.shape)) > 1 or td != [int(x) for x in exp.cells]))
         if i == 0 and p["i"] == 0:
